@@ -32,7 +32,7 @@ theorem C12_reset_like_fresh (hW : World P cfg env G inp) {n cr res evs s o s'}
     | .ok p' forest => o = .ret true ∧ s'.pos = p' ∧ s'.tree.take s'.ti = postorderL forest
     | .fail => o = .ret false ∧ s'.maxTok = evs.foldl updTok zeroTok := by
   obtain ⟨h1, h2, h3, h4⟩ := hs
-  have h := R_rule_all hW hfind hev h1 (Nat.zero_le _) (by rw [h2]; exact Nat.zero_le _) h4 hrun
+  have h := R_rule_all hW hfind hev h1 (Nat.zero_le _) (by rw [h2]; exact Nat.zero_le _) (by rw [h4]; exact memoOK_nil) hrun
   cases res with
   | ok p' forest =>
     obtain ⟨a, b, _, d, _⟩ := h
@@ -52,8 +52,8 @@ theorem C12_history_irrelevant (hW : World P cfg env G inp) {n cr res evs s1 s2 
     (o1 = .ret false → t1.maxTok = t2.maxTok) := by
   have a := C12_reset_like_fresh hW h1 hfind hev r1
   have b := C12_reset_like_fresh hW h2 hfind hev r2
-  have a' := R_rule_all hW hfind hev h1.1 (Nat.zero_le _) (by rw [h1.2.1]; exact Nat.zero_le _) h1.2.2.2 r1
-  have b' := R_rule_all hW hfind hev h2.1 (Nat.zero_le _) (by rw [h2.2.1]; exact Nat.zero_le _) h2.2.2.2 r2
+  have a' := R_rule_all hW hfind hev h1.1 (Nat.zero_le _) (by rw [h1.2.1]; exact Nat.zero_le _) (by rw [h1.2.2.2]; exact memoOK_nil) r1
+  have b' := R_rule_all hW hfind hev h2.1 (Nat.zero_le _) (by rw [h2.2.1]; exact Nat.zero_le _) (by rw [h2.2.2.2]; exact memoOK_nil) r2
   cases res with
   | ok p' forest =>
     obtain ⟨a1, a2, a3⟩ := a
